@@ -26,7 +26,7 @@ def checker(ctx) -> ptcheck.Checker:
 
 # (the last four: shapes beyond the default stream, see notes/C02.md "Seeded changes")
 GEN = {'measure_p': 0.75, 'drop_p': 0.45, 'zero_p': 0.12,
-       'nest_wrap_p': 0.3, 'int_chan_p': 0.1, 'plain_t_p': 0.1, 'reuse_p': 0.25}
+       'nest_wrap_p': 0.3, 'int_chan_p': 0.1, 'plain_t_p': 0.1, 'reuse_p': 0.25, 'single_p': 0.3, 'self_map_p': 0.15}
 
 
 def reuse_case(rng: random.Random):
